@@ -278,7 +278,12 @@ static size_t curlCallback_receive(char *ptr, size_t size, size_t nmemb, void *u
 	if (totalCount > curlReq->cap) {
 		size_t newCap = totalCount + 255;
 		tmp_buffer = KSI_calloc(newCap, sizeof(unsigned char));
-		if (tmp_buffer == NULL) goto cleanup;
+		if (tmp_buffer == NULL) {
+			/* Nothing was stored: the count returned has to differ from the count received (with an empty buffer the
+			 * total so far is the count received). */
+			totalCount = bytesReceived + 1;
+			goto cleanup;
+		}
 		curlReq->cap = newCap;
 
 		memcpy(tmp_buffer, curlReq->raw, curlReq->len);
